@@ -25,12 +25,12 @@ Tr == ndJsonDeserialize(IOEnv.VERIF_IN)[1]
 TrSenders == 1..Tr.ncalls
 TrMaxSb == Tr.nsb
 
-VARIABLES l, inq, rxn, ended, held
-tvars == <<vars, l, inq, rxn, ended, held>>
+VARIABLES l, inq, rxn, ended, held, dying
+tvars == <<vars, l, inq, rxn, ended, held, dying>>
 Ev == Tr.events[l]
 More == l <= Len(Tr.events)
 
-TInit == TLCSet(1, 0) /\ Init /\ l = 1 /\ inq = <<>> /\ rxn = 0 /\ ended = FALSE /\ held = FALSE
+TInit == TLCSet(1, 0) /\ Init /\ l = 1 /\ inq = <<>> /\ rxn = 0 /\ ended = FALSE /\ held = FALSE /\ dying = FALSE
 
 (* Begin + Write of a call, with the system bytes the call really used (the library's allocator is not part of the
    model's claim).  The two steps are taken together at the moment the peer sees the frame: the peer never sends anything
@@ -45,13 +45,13 @@ TBeginWrite(s, b) ==
     /\ sendCnt' = sendCnt + 1 /\ inflight' = inflight + 1
     /\ pc' = [pc EXCEPT ![s] = "written"]
     /\ UNCHANGED <<cur, live, sel, out, handled, nextSb, peerBudget, errCnt, dropCnt, lostReply>>
-Quiet == UNCHANGED <<l, inq, rxn, ended, held>>
+Quiet == UNCHANGED <<l, inq, rxn, ended, held, dying>>
 (* Routing a frame commutes with every log event that does not carry the same system bytes, so in-flight frames are routed
    EAGERLY -- before the next log event is consumed -- unless the behaviour commits to losing them: "held" frames (and everything
    queued behind them) are never routed and disappear when the generation ends. *)
 MayConsume == inq = <<>> \/ held
 EndStillAhead == ended \/ \E i \in l..Len(Tr.events) : Tr.events[i].d = "end"
-THold == /\ inq /= <<>> /\ ~held /\ cur = 1 /\ EndStillAhead /\ held' = TRUE /\ UNCHANGED <<vars, l, inq, rxn, ended>>
+THold == /\ inq /= <<>> /\ ~held /\ cur = 1 /\ EndStillAhead /\ held' = TRUE /\ UNCHANGED <<vars, l, inq, rxn, ended, dying>>
 (* Calls interact only through the registry slot of their own system bytes and the order of in-flight frames, so the ways a
    wait can end without a reply (T3, cancel, released) are tried just in time: right before the receive goroutine routes a frame
    with that call's system bytes, or once the whole log has been consumed.  Actions of different calls commute. *)
@@ -62,27 +62,42 @@ TTake(s) == JustInTime(s) /\ Take(s) /\ Quiet
 TTimeout(s) == Tr.outcomes[s] = "t3" /\ JustInTime(s) /\ Timeout(s) /\ Quiet
 TCancel(s) == Tr.outcomes[s] = "ctx" /\ JustInTime(s) /\ Cancel(s) /\ Quiet
 TReleased(s) == Tr.outcomes[s] = "closed" /\ JustInTime(s) /\ Released(s) /\ Quiet
-TRecv == /\ inq /= <<>> /\ ~held /\ Recv(Head(inq).k, Head(inq).sb) /\ inq' = Tail(inq) /\ UNCHANGED <<l, rxn, ended, held>>
+TRecv == /\ inq /= <<>> /\ ~held /\ ~dying /\ Recv(Head(inq).k, Head(inq).sb) /\ inq' = Tail(inq) /\ UNCHANGED <<l, rxn, ended, held, dying>>
+(* The end of a generation is not one instant: its context is cancelled first (waiting senders start to leave with the
+   connection-closed error) while the receive goroutine may still be working through frames it had already read.  In that
+   DYING phase a frame for a slot that is still registered is routed as usual; a frame nobody waits for any more goes to the
+   handlers of a generation that is being torn down and may or may not be seen by them. *)
+TBeginDying == /\ ended /\ ~dying /\ cur > 0 /\ live[cur] /\ dying' = TRUE /\ UNCHANGED <<vars, l, inq, rxn, ended, held>>
+TReleasedDying(s) == /\ dying /\ Tr.outcomes[s] = "closed" /\ pc[s] = "written" /\ call[s].e = cur /\ MayGiveUp(s) /\ JustInTime(s)
+                     /\ Finish(s, <<"closed", 0, 0>>)
+                     /\ UNCHANGED <<cur, live, sel, call, wire, handled, nextSb, peerBudget, sendCnt, errCnt, dropCnt>> /\ Quiet
+TRecvDying == /\ dying /\ inq /= <<>>          \* (frames held back during the live phase are worked through now, or lost)
+              /\ LET f == Head(inq) IN
+                 IF f.k \in {"secondary", "ctl", "reject"} /\ reg[cur][f.sb].kind /= "none"
+                 THEN Recv(f.k, f.sb)
+                 ELSE \/ Recv(f.k, f.sb)                         \* the handlers still got it
+                      \/ UNCHANGED vars                          \* ... or it went down with the generation
+              /\ inq' = Tail(inq) /\ UNCHANGED <<l, rxn, ended, held, dying>>
 (* generations: the harness ended generation 1 (peer close / reset, or Close()); the library notices at some later point;
    whatever was still in flight to the dead generation is lost *)
-TEndEpoch == /\ ended /\ EndEpoch /\ inq' = <<>> /\ held' = FALSE /\ UNCHANGED <<l, rxn, ended>>
-TNewEpoch == /\ NewEpoch /\ rxn' = 0 /\ UNCHANGED <<l, inq, ended, held>>
+TEndEpoch == /\ ended /\ EndEpoch /\ inq' = <<>> /\ held' = FALSE /\ dying' = FALSE /\ UNCHANGED <<l, rxn, ended>>
+TNewEpoch == /\ NewEpoch /\ rxn' = 0 /\ UNCHANGED <<l, inq, ended, held, dying>>
 TReselect == /\ cur = 2 /\ Reselect /\ Quiet
 
 TraceRx == /\ More /\ Ev.d = "rx" /\ MayConsume
            /\ \E s \in TrSenders : Tr.call_sbi[s] = Ev.sbi /\ TBeginWrite(s, Ev.sbi)
            /\ cur = Ev.gen
-           /\ rxn' = rxn + 1 /\ l' = l + 1 /\ UNCHANGED <<inq, ended, held>>
+           /\ rxn' = rxn + 1 /\ l' = l + 1 /\ UNCHANGED <<inq, ended, held, dying>>
 (* a frame written on a generation the library has already left (or is leaving) never arrives *)
 TraceTx == /\ More /\ Ev.d = "tx" /\ MayConsume
            /\ inq' = IF Ev.gen = cur /\ live[cur] THEN Append(inq, [k |-> Ev.k, sb |-> Ev.sbi]) ELSE inq
-           /\ l' = l + 1 /\ UNCHANGED <<vars, rxn, ended, held>>
-TraceEnd == /\ More /\ Ev.d = "end" /\ MayConsume /\ ended' = TRUE /\ l' = l + 1 /\ UNCHANGED <<vars, inq, rxn, held>>
+           /\ l' = l + 1 /\ UNCHANGED <<vars, rxn, ended, held, dying>>
+TraceEnd == /\ More /\ Ev.d = "end" /\ MayConsume /\ ended' = TRUE /\ l' = l + 1 /\ UNCHANGED <<vars, inq, rxn, held, dying>>
 TraceNew == /\ More /\ Ev.d = "new" /\ MayConsume /\ cur = 2 /\ live[2] /\ sel           \* the peer has seen the new generation selected
-            /\ l' = l + 1 /\ UNCHANGED <<vars, inq, rxn, ended, held>>
+            /\ l' = l + 1 /\ UNCHANGED <<vars, inq, rxn, ended, held, dying>>
 
-TNext == \/ \E s \in TrSenders : TTake(s) \/ TTimeout(s) \/ TCancel(s) \/ TReleased(s)
-         \/ TRecv \/ THold \/ TEndEpoch \/ TNewEpoch \/ TReselect \/ TraceRx \/ TraceTx \/ TraceEnd \/ TraceNew
+TNext == \/ \E s \in TrSenders : TTake(s) \/ TTimeout(s) \/ TCancel(s) \/ TReleased(s) \/ TReleasedDying(s)
+         \/ TRecv \/ TRecvDying \/ TBeginDying \/ THold \/ TEndEpoch \/ TNewEpoch \/ TReselect \/ TraceRx \/ TraceTx \/ TraceEnd \/ TraceNew
 TSpec == TInit /\ [][TNext]_tvars
 
 OutKind(o) == IF o[1] = "-" THEN "pending" ELSE o[1]
